@@ -422,7 +422,22 @@ def break_ops(rng, ops):
     """Return (bad_ops, why) violating the JSON specification or an op-specific rule."""
     bad = copy.deepcopy(ops)
     why = rng.choice(["not-a-list", "empty-list", "op-not-dict", "missing-field", "extra-field", "unknown-operation",
-                      "missing-required-parameter", "wrong-type-parameter", "extra-parameter", "op-specific"])
+                      "missing-required-parameter", "wrong-type-parameter", "extra-parameter", "op-specific",
+                      "op-specific-then-good-one"])
+    if why == "op-specific-then-good-one":
+        # an operation with an error only its own check finds, followed later by a correct operation of the same type
+        good = {"factor_column": dict(operation="factor_column", description="generated",
+                                      parameters=dict(column_name="trial_type", factor_values=["go"], factor_names=["is_go"])),
+                "merge_consecutive": dict(operation="merge_consecutive", description="generated",
+                                          parameters=dict(column_name="trial_type", event_code="go", set_durations=False,
+                                                          ignore_missing=True, match_columns=["response"]))}
+        kind = rng.choice(sorted(good))
+        wrong = copy.deepcopy(good[kind])
+        if kind == "factor_column":
+            wrong["parameters"]["factor_values"] = ["go", "stop"]
+        else:
+            wrong["parameters"]["match_columns"] = ["trial_type"]
+        return [wrong] + bad + [good[kind]], "op-specific"
     if why == "not-a-list":
         return bad[0], why
     if why == "empty-list":
